@@ -25,7 +25,7 @@ func runC08(r *Run, p *Prog) {
 		r.Unresolved("B1", why)
 		return
 	}
-	root := "generateTemplate"
+	root := generatorRoot(p)
 	w, _, why2 := RunGenWalker(p, m, root)
 	if w == nil {
 		r.Unresolved("B1", why2)
